@@ -335,6 +335,15 @@ class X12Reader(X12Base):
         """
         X12Base._parse_segment(self, seg_data)
         seg_id = seg_data.get_seg_id()
+        if seg_id in ('IEA', 'GE', 'SE') and not self._has_open_loop(seg_id):
+            # orphan trailer: no matching header is open, nothing to close
+            if seg_id == 'IEA':
+                self._isa_error('024', 'IEA segment found without an open ISA loop')
+            elif seg_id == 'GE':
+                self._gs_error('3', 'GE segment found without an open GS loop')
+            else:
+                self._st_error('3', 'SE segment found without an open ST loop')
+            return
         if seg_id == 'IEA':
             if self.loops[-1][0] != 'ISA':
                 # Unterminated GS loop
@@ -380,6 +389,19 @@ class X12Reader(X12Base):
                     self.seg_count + 1)
                 self._st_error('4', err_str)
             del self.loops[-1]
+
+    def _has_open_loop(self, trailer_id):
+        """
+        Is a loop open that the given trailer segment could close?
+        IEA and GE also close one unterminated inner loop; SE only closes an ST
+        """
+        if not self.loops:
+            return False
+        if trailer_id == 'IEA':
+            return len(self.loops) > 1 or self.loops[-1][0] == 'ISA'
+        if trailer_id == 'GE':
+            return len(self.loops) > 1 or self.loops[-1][0] == 'GS'
+        return True
 
     def __iter__(self):
         """
